@@ -369,6 +369,8 @@ func (e *engine) enumerate() {
 			stride := 1
 			if !thorough && len(s.data) > mutate.TinySeed {
 				stride = 64
+			} else if thorough && len(s.data) > hangInputMax {
+				stride = 16 // seeds > 64 KiB: every length in a structural region, every 16th elsewhere
 			}
 			set.Truncations(mutate.TruncLengths(regions, len(s.data), stride))
 			// (ii) bytes
@@ -685,9 +687,25 @@ func (e *engine) execute() {
 			ids = ids[n:]
 		}
 	}
-	ch := make(chan batch, len(batches))
+	// interleave the seeds' batches so that a run that hits its time budget has
+	// covered a prefix of every seed's enumeration rather than skipped whole seeds
+	perSeed := map[int32][]batch{}
 	for _, b := range batches {
-		ch <- b
+		si := e.cases[b.jobs[0].id].seed
+		perSeed[si] = append(perSeed[si], b)
+	}
+	ch := make(chan batch, len(batches))
+	for round := 0; ; round++ {
+		any := false
+		for _, si := range order {
+			if round < len(perSeed[si]) {
+				ch <- perSeed[si][round]
+				any = true
+			}
+		}
+		if !any {
+			break
+		}
 	}
 	close(ch)
 	var wg sync.WaitGroup
@@ -1299,8 +1317,8 @@ func (e *engine) report() {
 		"byte_alphabet":        "{0x00,0xff,0x7f,0x80,b+1,b-1} at every structural offset",
 		"int_alphabet":         "{0,1,0x7fffffff,0x80000000,0xffffffff,v+1,v-1,v*2,filesize,filesize+1} (16-bit fields: 0x7fff,0x8000,0xffff) at every aligned 16/32-bit position, LE and BE",
 		"int_positions":        map[bool]string{false: "quick: positions whose current value v satisfies 0 < v < 2*filesize (plausible length/offset/count fields)", true: "thorough: every aligned position"}[thorough],
-		"structural_regions":   "seeds <= 8 KiB: every offset; larger: first 2 KiB, last 2 KiB and the format's structures (zip records, PE headers + certificate table, CFB header/FAT/directory sectors, ar headers, DER TLV headers to depth 5, xar header/TOC, koly trailer + code signature, Mach-O load commands, rpm header indexes, XML signature elements); packed formats use the record start as alignment origin",
-		"truncation":           map[bool]string{false: "quick: every prefix length for seeds <= 8 KiB; larger seeds: every length inside or at the end of a structural region plus every 64th length", true: "thorough: every prefix length"}[thorough],
+		"structural_regions":   map[bool]string{false: "quick: seeds <= 1 KiB: every offset; larger: first 128, last 128 bytes and the Core field windows (magics, counts, sizes, offsets) of the format's structures", true: "thorough: seeds <= 8 KiB: every offset; larger: first 2 KiB, last 2 KiB and the format's structures"}[thorough] + "  (zip records, PE headers + certificate table, CFB header/FAT/directory sectors, ar headers, DER TLV headers to depth 5, xar header/TOC, koly trailer + code signature, Mach-O load commands, rpm header indexes, XML signature elements); packed formats use the record start as alignment origin",
+		"truncation":           map[bool]string{false: "quick: every prefix length for seeds <= 1 KiB; larger seeds: every length inside or at the end of a quick region plus every 64th length", true: "thorough: every prefix length for seeds <= 64 KiB; larger seeds: every length inside or at the end of a structural region plus every 16th length"}[thorough],
 		"tar":                  "every header field x per-field alphabet with recomputed checksum; whole-stream variants swap/duplicate/drop/trailing member, missing EOF blocks, pax override; byte and integer mutations of small member bodies (central directory copy) and of the inner format structures",
 		"pairs":                map[bool]string{false: "none in quick", true: "all pairs of LE field mutations among the first 40 plausible fields in the first 512 bytes of seeds <= 2 KiB"}[thorough],
 		"alloc_bound":          "heap (HeapSys) growth in a fresh worker > 64 MiB + 64 x input size; screened by TotalAlloc per entry",
